@@ -266,6 +266,12 @@ func parseExpr(in []byte) (Q, int, error) {
 		if subQ == nil {
 			return nil, 0, fmt.Errorf("query: '-' operator needs an argument")
 		}
+		switch subQ.(type) {
+		case *caseQ, *Type:
+			// case: and type: are directives for the enclosing expression list, not
+			// expressions. (A parenthesized group is always an *Or here.)
+			return nil, 0, fmt.Errorf("query: '-' cannot be applied to a case: or type: directive")
+		}
 		b = b[n:]
 		expr = &Not{subQ}
 
